@@ -71,18 +71,15 @@ def choose_overload(name, candidates, engine, receiver, context, args, kwargs):
 
     candidates2 = []
     lazy_params = None
-    no_kwargs = None
     if receiver is not utils.NO_VALUE:
         args = (receiver,) + args
+    no_kwargs = set(c.no_kwargs for level in candidates for c in level)
+    if len(no_kwargs) > 1:
+        raise_ambiguous()
+    args, kwargs = translate_args(no_kwargs.pop(), args, kwargs)
     for level in candidates:
         new_level = []
         for c in level:
-            if no_kwargs is None:
-                no_kwargs = c.no_kwargs
-                args, kwargs = translate_args(no_kwargs, args, kwargs)
-            elif no_kwargs != c.no_kwargs:
-                raise_ambiguous()
-
             mapping = c.map_args(args, kwargs, context, engine)
             if mapping is None:
                 continue
@@ -117,22 +114,26 @@ def choose_overload(name, candidates, engine, receiver, context, args, kwargs):
         kwargs[key] = arg_evaluator(key, value)
 
     delegate = None
-    winner_mapping = None
     for level in candidates2:
+        matches = []
         for c, mapping in level:
             try:
                 d = c.get_delegate(receiver, engine, context, args, kwargs)
             except exceptions.ArgumentException:
                 pass
             else:
-                if delegate is not None:
-                    if _is_specialization_of(winner_mapping, mapping):
-                        continue
-                    elif not _is_specialization_of(mapping, winner_mapping):
-                        raise_ambiguous()
-                delegate = d
-                winner_mapping = mapping
-        if delegate is not None:
+                matches.append((d, mapping))
+        if matches:
+            # the winner is the match that specializes every other match;
+            # this does not depend on the order the overloads are enumerated
+            winners = [
+                d for d, mapping in matches
+                if all(other is mapping or
+                       _is_specialization_of(mapping, other)
+                       for _, other in matches)]
+            if len(winners) != 1:
+                raise_ambiguous()
+            delegate = winners[0]
             break
 
     if delegate is None:
